@@ -9,6 +9,13 @@
 #include "cpusim.h"
 #include "erasure_code.h"
 
+/* the calls exactly as an application writes them: through the public headers (whatever prototype, macro or inline wrapper they provide) */
+#include "gf_vect_mul.h"
+static void hdr_gf_vect_dot_prod(int len, int vlen, unsigned char *g, unsigned char **src, unsigned char *dest) { gf_vect_dot_prod(len, vlen, g, src, dest); }
+static void hdr_gf_vect_mad(int len, int vec, int vec_i, unsigned char *g, unsigned char *src, unsigned char *dest) { gf_vect_mad(len, vec, vec_i, g, src, dest); }
+static void hdr_ec_encode_data(int len, int k, int rows, unsigned char *g, unsigned char **data, unsigned char **coding) { ec_encode_data(len, k, rows, g, data, coding); }
+static void hdr_ec_encode_data_update(int len, int k, int rows, int vec_i, unsigned char *g, unsigned char *data, unsigned char **coding) { ec_encode_data_update(len, k, rows, vec_i, g, data, coding); }
+static int hdr_gf_vect_mul(int len, unsigned char *gftbl, void *src, void *dest) { return gf_vect_mul(len, gftbl, src, dest); }
 typedef void (*fn_dot1)(int, int, unsigned char *, unsigned char **, unsigned char *);
 typedef void (*fn_dotn)(int, int, unsigned char *, unsigned char **, unsigned char **);
 typedef void (*fn_mad1)(int, int, int, unsigned char *, unsigned char *, unsigned char *);
@@ -39,6 +46,9 @@ static ksym syms[] = {
 #define X(s, n, isa) { #s, (void *) ksym_##s, n, isa, F_MUL, 0, 0, 0, 0, 0 },
 	V_GFMUL_LIST(X)
 #undef X
+	{ "gf_vect_dot_prod@erasure_code.h", (void *) hdr_gf_vect_dot_prod, 1, "disp", F_DOT, 0, 0, 0, 0, 0 }, { "gf_vect_mad@erasure_code.h", (void *) hdr_gf_vect_mad, 1, "disp", F_MAD, 0, 0, 0, 0, 0 },
+	{ "ec_encode_data@erasure_code.h", (void *) hdr_ec_encode_data, 1, "disp", F_ENC, 0, 0, 0, 0, 0 }, { "ec_encode_data_update@erasure_code.h", (void *) hdr_ec_encode_data_update, 1, "disp", F_UPD, 0, 0, 0, 0, 0 },
+	{ "gf_vect_mul@gf_vect_mul.h", (void *) hdr_gf_vect_mul, 1, "disp", F_MUL, 0, 0, 0, 0, 0 },
 };
 #define NSYMS ((int) (sizeof syms / sizeof syms[0]))
 static fn_init init_base, init_gfni, init_disp;
